@@ -78,6 +78,9 @@ def c16_load_oracle(case, trace):
     for t, r in trace:
         if t == "LOADRENDER" and r.split()[-1] in ("FAILED", "PANIC"):
             yield "the error of load_test(%s) cannot be rendered as a diagnostic (a location outside the attached source?): %s" % (r.split()[0], r)
+    for t, r in trace:
+        if t == "ENTRY" and not r.startswith("same"):
+            yield "File::parse, the FromStr impl and File::open (on a file with the same text) disagree: %s" % r[:300]
     oob = [r for t, r in trace if t == "LOADOOB"]
     unk = [r for t, r in trace if t == "LOADUNK"]
     if oob != ["err"]:
